@@ -33,6 +33,8 @@ def impl_replay(job):
         try:
             nt, dt = rec["nt"], f(rec["dt"])
             tp = np.array([i * dt for i in range(nt)])
+            if (rec.get("nt", 0) + len(rec.get("steps", []))) % 3 == 2:
+                tp = np.repeat(tp, 2)[::2]      # the same grid as a non-contiguous view
             vm = rec["vm"]
             V0 = f(rec["V0"])
             m, _ = build(rec["prog"], x0=[[v, 1] for v in rec["x0"]], ns=rec["ns"], via_ctor=job["via"] == 1, initialize=False)
